@@ -42,7 +42,7 @@ def run(tier, seed):
             ("MCMdVectors", "MCMdVectors", "published vectors of FIPS 180-4, RFC 7693 (incl. self-test), RFC 4231, "
                                            "RFC 9380, FIPS 197, SP 800-38A; S-box = its definition", True)]
     if not quick:
-        runs.append(("ShaStream", "ShaStream_b16", "B=16 LB=2 M=65536 MaxLen=70 MaxChunks=4", True))
+        runs.append(("ShaStream", "ShaStream_b16", "B=16 LB=1 M=256 MaxLen=70 MaxChunks=4", True))
     core.run_models(ev, runs)
     # 2. conformance against the pinned build
     parts = gen_md.gen_cases(rng, tier)
